@@ -821,10 +821,19 @@ def state_table(ctx):
                         b = getattr(par, fld, None)
                         if isinstance(b, list) and stmt in b:
                             blk = b[b.index(stmt):]
-                    paired = any(dotted(x.func) == 'self.manager.on_channel_closed' for s in (blk or []) for x in calls_in(s))
+                            whole = b
+                    dereg = [x for s in (whole if blk is not None else []) for x in calls_in(s) if dotted(x.func) == 'self.manager.on_channel_closed']
+                    paired = bool(dereg)
                     key = f'{cq}.{mname} | -> {text(c.args[0]).split(".")[-1]}'
                     if paired:
-                        R.ok(rule, key, 'transition is followed by manager.on_channel_closed(self)', p.loc(c))
+                        # the listeners of 'close' run inside the emit: what must happen whatever they do comes first
+                        emits = [x for s in whole for x in calls_in(s) if (dotted(x.func) == 'self.emit' and x.args and text(x.args[0]).endswith('EVENT_CLOSE')) or (cq == LE and x is c)]
+                        first_emit = min((x.lineno for x in emits), default=10 ** 9)
+                        R.check(dereg[0].lineno < first_emit, rule, key, 'manager.on_channel_closed(self) runs before the close event is emitted',
+                                'the channel is removed from the manager tables only after `close` has been emitted: a listener that raises leaves the closed channel registered (and its CID taken)', p.loc(c))
+                        late = [x for s in whole for x in calls_in(s) if x.lineno > first_emit and (dotted(x.func) in ('self.disconnection_result.set_result', 'self.connection_result.cancel', 'self.connection_result.set_exception', 'self.flush_output'))]
+                        R.check(not late, rule, key + ' | waiters', 'pending disconnect / connect / drain waiters are released before the close event is emitted',
+                                f'{[dotted(x.func) for x in late]} run after `close` has been emitted: a listener that raises leaves disconnect() / drain() waiting forever', p.loc(c))
                     else:
                         # allowed: the creating coroutine removes the entry when connect() raises, or the
                         # link-level teardown (abort <- ChannelManager.on_disconnection) already dropped the tables
